@@ -4,7 +4,7 @@
 //! tokens (values hex, `-` = empty): n= v= l= a= s=   (name version license arch summary, required)
 //!   e=<u32> r= d= ve= pk= g= u= vc= ck= bh=  sd=<u32> now=<u32> lf=<u64> c=<none|gzip:L|zstd:L|xz:L|bzip2:L>
 //!   f=<dest>:<mode>:<user>:<group>:<flags>:<caps|~>:<link>:<mtime>:<seed>:<size>:<verifyflags|~>[:<extras>]
-//!     <mode>   i<perm>  no mode() call; the source file is chmod-ed to <perm> (all 12 bits) and the mode is inherited
+//!     <mode>   i<perm>  no mode() call; the source file is chmod-ed to <perm> (DECIMAL, all 12 bits) and the mode is inherited
 //!              <n>      .mode(n as i32) after symlink(); n is a SIGNED decimal (values outside 16 bits become FileMode::Invalid)
 //!              f<n> / l<n>  the same call made first (right after new()) / last (after the flag setters); u<n>  .mode(n as u16)
 //!     <flags>  `+`-separated is_* setter names without the prefix, in call order (`config_noreplace+doc`); 0 = none;
